@@ -295,3 +295,58 @@ Example repeated_names_break_it :
   lookup "x" (init_spec Z [("x", 0%Z); ("x", 0%Z)] [Some 7%Z; None]) = Some 0%Z /\
   lookup "x" (fold_left (step_assign Z [Some 7%Z; None]) (combine (seq 0 2) [("x", 0%Z); ("x", 0%Z)]) (init_spec Z [("x", 0%Z); ("x", 0%Z)] [])) = Some 7%Z.
 Proof. vm_compute. split; reflexivity. Qed.
+
+(* ---- unions: __init__ through object.__setattr__, member names among the constants ---- *)
+Section U.
+Variable V : Type.
+
+Definition ucs (f : string * V) : list (cst V) := [CStr (fst f); CVal (snd f)].
+
+Lemma flat_ucs_length (l : list (string * V)) : length (flat_map ucs l) = 2 * length l.
+Proof. induction l as [|f r IH]; cbn [flat_map ucs length app]; [reflexivity|]. cbn [length app] in *. lia. Qed.
+
+Lemma uconsts_at done nm d rest :
+  nth_error (CNone :: flat_map ucs (done ++ (nm, d) :: rest)) (S (2 * length done)) = Some (CStr nm) /\
+  nth_error (CNone :: flat_map ucs (done ++ (nm, d) :: rest)) (S (S (2 * length done))) = Some (CVal d).
+Proof.
+  rewrite flat_map_app. cbn [flat_map ucs fst snd app].
+  assert (L := flat_ucs_length done).
+  split.
+  - change (nth_error (flat_map ucs done ++ CStr nm :: CVal d :: flat_map ucs rest) (2 * length done) = Some (CStr nm)).
+    rewrite nth_error_app2; rewrite L; [|lia]. rewrite Nat.sub_diag. reflexivity.
+  - change (nth_error (flat_map ucs done ++ CStr nm :: CVal d :: flat_map ucs rest) (S (2 * length done)) = Some (CVal d)).
+    rewrite nth_error_app2; rewrite L; [|lia].
+    replace (S (2 * length done) - 2 * length done) with 1 by lia. reflexivity.
+Qed.
+
+Lemma union_init_loop (fields : list (string * V)) args : forall done rest acc, fields = done ++ rest ->
+  fold_left (fun acc '(vi, ki, ci) => do at_ <- acc;
+      match vi with 0 => Err EUnsupported | S ai =>
+      match nth_error (co_consts (generate_union_init V fields)) ki with
+      | Some (CStr nm) =>
+        match nth ai args None with
+        | Some v => Ok (set_attr V at_ nm v)
+        | None => match nth_error (co_consts (generate_union_init V fields)) ci with Some (CVal d) => Ok (set_attr V at_ nm d) | _ => Err EUnsupported end
+        end
+      | _ => Err EUnsupported
+      end end) (map (fun i => (S i, S (2 * i), S (S (2 * i)))) (seq (length done) (length rest))) (Ok acc)
+  = Ok (fold_left (step_init V args) (combine (seq (length done) (length rest)) rest) acc).
+Proof.
+  intros done rest. revert done. induction rest as [|[nm d] r IH]; intros done acc E; [reflexivity|].
+  cbn [length seq map fold_left combine bind].
+  assert (C : co_consts (generate_union_init V fields) = CNone :: flat_map ucs (done ++ (nm, d) :: r)) by (subst fields; reflexivity).
+  destruct (uconsts_at done nm d r) as [C1 C2]. rewrite C, C1, C2. rewrite <- C.
+  specialize (IH (done ++ [(nm, d)])). rewrite app_length in IH. cbn [length] in IH. rewrite Nat.add_1_r in IH.
+  unfold step_init at 2. destruct (nth (length done) args None) as [v|]; apply IH; subst fields; now rewrite <- app_assoc.
+Qed.
+
+(* a union's __init__ stores, through object.__setattr__, what a structure's __init__ assigns *)
+Theorem union_init_assigns_arguments_or_defaults (fields : list (string * V)) args :
+  run_init V (generate_union_init V fields) args = Ok (init_spec V fields args).
+Proof.
+  rewrite init_spec_is_fold. unfold run_init. unfold generate_union_init at 1. cbn [co_body]. unfold template, make_union_init. cbn [co_body].
+  rewrite placeholders_length. unfold name_at. cbn [co_names generate_union_init template make_union_init nth_error bind].
+  cbn [String.eqb Ascii.eqb Bool.eqb andb negb]. 
+  exact (union_init_loop fields args [] fields [] eq_refl).
+Qed.
+End U.
